@@ -33,6 +33,12 @@ CONNECTION WITH THE USE OR PERFORMANCE OF THIS SOFTWARE.
 
 #define MAX_SFX_HEADER_LEN (256 * 1024)
 
+#if defined(LHASA_VERIF) && defined(LHASA_VERIF_MAX_SFX_HEADER_LEN)
+// Verification hook: scaled scan limit (see /verif/DESIGN.md).
+#undef MAX_SFX_HEADER_LEN
+#define MAX_SFX_HEADER_LEN LHASA_VERIF_MAX_SFX_HEADER_LEN
+#endif
+
 // Size of the lead-in buffer used to skip the self-extractor.
 
 #define LEADIN_BUFFER_LEN 24
